@@ -10,6 +10,7 @@ import NetqasmVerif.Driver.Msg
 import NetqasmVerif.Driver.Text
 import NetqasmVerif.Driver.Transpile
 import NetqasmVerif.Driver.Exec
+import NetqasmVerif.Driver.Epr
 open Lean NQ.Drv
 
 def handlers : List (String → Json → Option Json) := [
@@ -24,7 +25,8 @@ def handlers : List (String → Json → Option Json) := [
   handleMsg,
   handleText,
   handleTranspile,
-  handleExec]
+  handleExec,
+  handleEpr]
 
 def dispatch (j : Json) : Json :=
   match (jField? j "op").bind jStr? with
